@@ -251,8 +251,8 @@ func vfStatsProject(s *Stats) vfM {
 
 func vfStatsEcho(st *vfStatsStep) vfM {
 	switch st.A {
-	case "bind":
-		return vfM{"a": "bind", "s": st.S, "rate": st.Rate, "d": st.D}
+	case "bind", "unbind":
+		return vfM{"a": st.A, "s": st.S, "rate": st.Rate, "d": st.D}
 	case "irtp", "ortp":
 		return vfM{"a": st.A, "s": st.S, "p": st.P, "w": st.W, "hl": st.Hl, "pl": st.Pl, "now": st.Now}
 	default:
@@ -428,6 +428,7 @@ func vfStatsRunIcpt(t *testing.T, sc *vfStatsScript, out *vfWriter) {
 	rtpWritten := 0
 	readers := map[uint32]interceptor.RTPReader{}
 	writers := map[uint32]interceptor.RTPWriter{}
+	everBound := map[uint32]bool{}
 	for i := range sc.Steps {
 		st := &sc.Steps[i]
 		clock = vfStatsAt(st.Now)
@@ -453,8 +454,18 @@ func vfStatsRunIcpt(t *testing.T, sc *vfStatsScript, out *vfWriter) {
 			ic.lock.Lock()
 			rec, isRec := ic.recorders[st.S].(*recorder)
 			ic.lock.Unlock()
-			if !isRec || atomic.LoadUint32(&rec.running) != 1 {
+			// (on a FIRST bind an inactive recorder means the harness raced the start-up; on a later bind of the same SSRC it
+			// would be the behaviour under test: the counters then tell)
+			if (!isRec || atomic.LoadUint32(&rec.running) != 1) && !everBound[st.S] {
 				t.Fatalf("VERIF-INFRA recorder for %d is not active after Bind", st.S)
+			}
+			everBound[st.S] = true
+		case "unbind": // (NoOp on the code as it is: the interceptor has no Unbind*)
+			info := &interceptor.StreamInfo{SSRC: st.S, ClockRate: st.Rate}
+			if st.D == "l" {
+				ic.UnbindLocalStream(info)
+			} else {
+				ic.UnbindRemoteStream(info)
 			}
 		case "irtp":
 			rd := readers[st.S]
